@@ -1,6 +1,7 @@
 //! C08 stream `printer`: HttpPrinter entry points with scripted writers (partial writes) and readers
 //! (piecewise bodies), under the test clock (date line of second 0).
-//! case: `<E|B|R|Q> <code> <reason hex> <d|n> [<name hex>:<value hex>,...] <piece,piece,..|-> <acc,acc,..|->`
+//! case: `<E|B|R|Q> <code> <reason hex> <d|n> [<op>,...] <piece,piece,..|-> <acc,acc,..|->`
+//!       op = `<name hex>:<value hex>` add | `=<name hex>:<value hex>` replace | `-<name hex>` remove | `!L<n>` `!L-` set_content_length | `!T` set chunked
 //!       E = write_response_empty, B = write_response_bytes (pieces concatenated), R = write_response (reader),
 //!       Q = write_request (method PUT, target /t); d = Headers::new() (date), n = new_nodate()
 //! impl: `<hex of all bytes the writer accepted> <ok|err>`
@@ -60,9 +61,15 @@ pub fn run(case: &str) -> String {
         let mut hs = if f[3] == "d" { Headers::new() } else { Headers::new_nodate() };
         let inner = &f[4][1..f[4].len() - 1];
         if !inner.is_empty() {
+            // `n:v` add, `=n:v` replace, `-n` remove, `!L<n>` / `!L-` set_content_length, `!T` set_transfer_encoding_chunked
             for e in inner.split(',') {
-                let (n, v) = e.split_once(':').unwrap();
-                hs.add(String::from_utf8(unhex(n)).unwrap(), unhex(v));
+                let name = |h: &str| String::from_utf8(unhex(h)).unwrap();
+                match e.as_bytes()[0] {
+                    b'=' => { let (n, v) = e[1..].split_once(':').unwrap(); hs.replace(name(n), unhex(v)); }
+                    b'-' => hs.remove(&name(&e[1..])),
+                    b'!' => match &e[1..] { "T" => hs.set_transfer_encoding_chunked(), "L-" => hs.set_content_length(None), l => hs.set_content_length(Some(l[1..].parse().unwrap())) },
+                    _ => { let (n, v) = e.split_once(':').unwrap(); hs.add(name(n), unhex(v)); }
+                }
             }
         }
         let pieces: Vec<Vec<u8>> = if f[5] == "-" { vec![] } else { f[5].split(',').map(unhex).collect() };
@@ -84,7 +91,7 @@ pub fn run(case: &str) -> String {
 pub fn gen(ctx: &Ctx) {
     let mut rng = Rng::new(ctx.seed, "printer");
     let mut out = Out::new(&ctx.dir, "printer");
-    out.rule = "the four response entry points and write_request: status 100..999 with CR/LF-free reasons (incl. 200 with a custom reason), 0..4 user headers, \
+    out.rule = "the four response entry points and write_request: status 100..999 with CR/LF-free reasons (incl. 200 with a custom reason), 0..4 user headers, one case in four with a header history (framing declared, then removed / replaced / reset), \
                 {nothing, content-length, transfer-encoding: chunked} declared, body lengths dense around 0, 2047/2048/2049, 8191/8192/8193 (thorough: 131071..131073, 300000), \
                 reader piece sizes {1-byte, small, 1000, 4096, whole}, writer acceptance patterns (every short count of the first write for small heads; random short writes), date on/off; chunk-size boundaries 15/16, 255/256, 4095/4096, 65535..65537, 131071..131073, 140000 as single chunks. \
                 non-trivial = a non-empty body".into();
@@ -106,7 +113,23 @@ pub fn gen(ctx: &Ctx) {
                     let val = *rng.pick(&["v", "text/plain; charset=utf-8", "", "a b\tc", "1, 2, 3"]);
                     fields.push(format!("{}:{}", hex(name.as_bytes()), hex(val.as_bytes())));
                 }
-                let decl = rng.below(4);
+                // one case in four builds its header set through a history: framing fields declared and then withdrawn or replaced
+                if rng.chance(1, 4) {
+                    let wrong = len + 1 + rng.below(40) as usize;
+                    let cl = |n: usize| format!("{}:{}", hex(b"content-length"), hex(n.to_string().as_bytes()));
+                    let hist: Vec<String> = match rng.below(8) {
+                        0 => vec![cl(wrong), format!("-{}", hex(b"Content-Length"))],
+                        1 => vec![cl(wrong), format!("={}:{}", hex(b"content-length"), hex(len.to_string().as_bytes()))],
+                        2 => vec![format!("!L{wrong}"), "!L-".into()],
+                        3 => vec![format!("!L{wrong}"), format!("!L{len}")],
+                        4 => vec!["!T".into(), format!("-{}", hex(b"transfer-encoding"))],
+                        5 => vec![format!("{}:{}", hex(b"Transfer-Encoding"), hex(b"chunked")), format!("={}:{}", hex(b"transfer-encoding"), hex(b"chunked"))],
+                        6 => vec![cl(wrong), format!("-{}", hex(b"content-length")), "!T".into()],
+                        _ => vec![format!("{}:{}", hex(b"x-a"), hex(b"1")), format!("-{}", hex(b"X-A")), format!("={}:{}", hex(b"server"), hex(b"s"))],
+                    };
+                    fields.extend(hist);
+                }
+                let decl = if fields.iter().any(|f| f.starts_with('!') || f.starts_with('-') || f.starts_with('=')) { 0 } else { rng.below(4) };
                 match decl {
                     1 => fields.push(format!("{}:{}", hex(b"Content-Length"), hex(len.to_string().as_bytes()))),
                     2 => fields.push(format!("{}:{}", hex(b"transfer-encoding"), hex(b"chunked"))),
